@@ -906,6 +906,29 @@ def rule_fwdsib(ctx, prop: str) -> RuleResult:
                         f"{owner}: single statements are forwarded below the new node at position {sorted(dn)} but statement ranges below position {sorted(db)}: "
                         f"a block cursor strictly inside the wrapped range is sent to a different (or non-existent) statement")
             )
+    # _forward_move has no fwd_block: it forwards the two END statements of a block and spans what lies
+    # between them.  "The same statements" additionally needs the span to have the original length
+    # (a statement moved in between, or one of the block's statements moved away, changes it).
+    mv = m.funcs.get("Block._forward_move.forward")
+    if mv is None:
+        raise AnalysisError("anchor vanished: Block._forward_move.forward")
+    res.instances += 1
+    res.nontrivial += 1
+    res.analysed.append(f"{IC}:Block._forward_move.forward")
+    span_checked = False
+    for n in mv.body_nodes():
+        if isinstance(n, (ast.If, ast.Assert)):
+            t = ast.unparse(n.test)
+            if "len(rng)" in t and ("new_end" in t or "new_start" in t):
+                span_checked = True
+    res.ob(span_checked)
+    res.sample(f"Block._forward_move.forward: forwarded block keeps its length: {span_checked}")
+    if not span_checked:
+        res.add(
+            Finding("FWDSIB", IC, mv.lineno, "Block._forward_move.forward", "block-span",
+                    "a block is forwarded through a move as the span between its forwarded end statements, with no check that the span still has the block's length: "
+                    "body()[1:3] = [y, z] forwarded through reorder_stmts(x, y) becomes [y, x, z] — it denotes a statement it did not contain")
+        )
     if n_pairs < 3:
         raise AnalysisError(f"FWDSIB: expected >= 3 fwd_node/fwd_block sibling pairs in internal_cursors.py, found {n_pairs}")
     res.floor = 3
